@@ -1,14 +1,19 @@
 """C04 - conversion never loses the original and is idempotent over run histories.
 
 1. TLC: spec/sys/NP2Convert.tla - every history of up to MaxRuns runs x options {overwrite, post_check, compress,
-   delete_original} x probe kind {NP2.4, NP2.1, NP1, already split} x original form {bin, cbin} x an interruption after
-   every step: Recoverable, DeleteGuard, Outcome (no-op re-run, forced re-run completes, -1 / 0 for foreign inputs).
+   delete_original, partial conversion, which form of the original is handed over, one shank only} x probe kind {NP2.4,
+   NP2.1, NP1, already split} x the directory the history finds (original as .bin / .cbin / both / next to a stale file of
+   the other form; shank folders absent / holding other files / holding output of another recording) x an interruption
+   after every step: Recoverable, DeleteGuard, Outcome (no-op re-run, forced re-run completes, -1 / 0 for foreign inputs).
 2. code -> spec with interruption injection: real NP2Converter histories on small synthesised recordings; the steps of
    process() are instrumented from the harness (wrapped methods, Path.unlink, Reader.compress_file / close); before
    every step the directory tree is projected (byte / decompression comparison with the expected content of every
    file) together with the object's check_completed; spec/trace/NP2ConvertTrace.tla installs each observed directory,
    requires every step to be the implementation-layer action of its label and evaluates the property layer on every
    observed state, step and run outcome.
+   A history = optional found state (`setup`: leftovers copied into the tree before the first run; init_params(extra=...))
+   + runs (options, interruption point, who runs: a fresh converter / the same object again / the same object after another
+   init_params / a converter that was constructed before the earlier runs of the history).
 """
 import contextlib
 import copy
@@ -28,7 +33,12 @@ NSH = 2
 NS = 1507          # deliberately not a multiple of 12, of the window or of the stride
 W = 1200           # 2 windows
 PART = 1399        # init_params(nsamples=PART): a partial conversion (option "part"), 2 windows as well, not a multiple of 12
-OPT_KEYS = ("ow", "chk", "cmp", "del", "part")
+NSF = 1903         # length of the other ("foreign") recording whose files a history may find under this recording's names
+# options of a run as the model sees them. cb (the file handed over is the .cbin) is resolved when the run begins: the input
+# options say hand="bin" / "cbin" or nothing (= the world's form if that file is there, else the other one); sub = nshank=[0]
+OPT_KEYS = ("ow", "chk", "cmp", "del", "part", "cb", "sub")
+FORMS = ("bin", "cbin", "both", "binS", "cbinS")
+FOUNDS = ("none", "dirs", "bins", "cbins", "mixed", "otherextra")
 STEM = "_spikeglx_ephysData_g0_t0.imec0"
 
 
@@ -38,10 +48,11 @@ class Injected(Exception):
 
 
 class World:
-    def __init__(self, root, kind, form, rng):
+    def __init__(self, root, kind, form, rng, extra=""):
         self.root = Path(root)
         self.kind = kind
         self.form = form
+        self.extra = extra or ""     # init_params(extra=...): suffix of the shank folder names (NP2.4)
         n2.rm(self.root)
         k = {"NP24": "NP2.4", "NP21": "NP2.1", "NP1": "3B2", "split": "NP2.4"}[kind]
         n = 8
@@ -49,7 +60,6 @@ class World:
             sites = [(c % NSH if kind == "NP24" else 0, c // 2, c % 2) for c in range(n)]
         else:
             sites = metagen.dense_sites(k, n=n)
-        extra = None
         self.binf, self.d, self.info = n2.make_recording(self.root, NS, rng, kind=k, n=n, sites=sites)
         if kind == "split":   # a shank file produced by an earlier split
             with open(self.binf.with_suffix(".meta"), "a") as f:
@@ -59,35 +69,126 @@ class World:
         self.raw = self.folder.parent
         self.orig_bytes = self.binf.read_bytes()
         self.shank_of = np.array([s[0] for s in sites])
-        if form == "cbin":
+        # another recording of the same probe (longer, other samples): the source of every stale file a history finds. Its
+        # generator is derived from this recording's data, the shared one is not touched.
+        self.froot = self.root.parent / (self.root.name + "_foreign")
+        n2.rm(self.froot)
+        frng = np.random.default_rng(int(np.abs(self.d.astype(np.int64)).sum() % (1 << 31)))
+        self.fbin, self.fd, _ = n2.make_recording(self.froot, NSF, frng, kind=k, n=n, sites=sites)
+        self.fmeta_text = self.fbin.with_suffix(".meta").read_text()
+        if form in ("cbin", "both", "cbinS"):
             import spikeglx
             sr = spikeglx.Reader(self.binf)
-            sr.compress_file(keep_original=False, chunk_duration=0.02)
+            sr.compress_file(keep_original=(form == "both"), chunk_duration=0.02)
             sr.close()
+        if form == "binS":      # a compressed file of the other recording (and its .ch) under this recording's name
+            self._mtscomp(self.fbin, nc=n + 1)
+            for suf in (".cbin", ".ch"):
+                shutil.move(self.fbin.with_suffix(suf), self.binf.with_suffix(suf))
+        if form == "cbinS":     # the .bin of the other recording next to this recording's .cbin
+            shutil.copy(self.fbin, self.binf)
         # snapshot of the pristine input to rebuild it cheaply
         self.pristine = self.root.parent / (self.root.name + "_pristine")
         n2.rm(self.pristine)
         shutil.copytree(self.root, self.pristine)
 
+    @staticmethod
+    def _mtscomp(path, nc, fs=30000):
+        """path.cbin / path.ch written by the library itself (not by the code under test)"""
+        import mtscomp
+        path = Path(path)
+        mtscomp.compress(path, out=path.with_suffix(".cbin"), outmeta=path.with_suffix(".ch"), sample_rate=fs, n_channels=nc,
+                         dtype=np.int16, chunk_duration=0.02)
+
     def reset(self):
         n2.rm(self.root)
         shutil.copytree(self.pristine, self.root)
 
+    def remove(self):
+        for p in (self.root, self.pristine, self.froot):
+            n2.rm(p)
+
+    check_meta = False     # C04 sets it: the original counts as complete only with its metadata file unchanged (parsed content)
+
+    @staticmethod
+    def _meta_dict(txt):
+        return {ln.split("=", 1)[0].lstrip("~"): ln.split("=", 1)[1].strip() for ln in txt.splitlines() if "=" in ln}
+
+    def _meta_ok(self):
+        if not self.check_meta:
+            return True
+        try:
+            return self._meta_dict(self.binf.with_suffix(".meta").read_text()) == self._meta_dict(self.meta_text)
+        except Exception:
+            return False
+
+    def _complete(self, p, cbin):
+        if not p.exists() or not self._meta_ok():
+            return False
+        if not cbin:
+            return p.read_bytes() == self.orig_bytes
+        a = self._load(p, True)
+        return a is not None and a.tobytes() == self.orig_bytes
+
     @property
     def ap_file(self):
-        return self.binf if self.form == "bin" else self.binf.with_suffix(".cbin")
+        """the file a user hands to the converter when a run does not say which: the world's own form when that file is there
+        (and is this recording), else the other form (an earlier run compressed the original in place / removed one of two)"""
+        b, c = self.binf, self.binf.with_suffix(".cbin")
+        first, second = ((c, b) if self.form in ("cbin", "cbinS") else (b, c))
+        if first.exists() or not self._complete(second, second is c):
+            return first
+        return second
+
+    def hand(self, which=None):
+        return {"bin": self.binf, "cbin": self.binf.with_suffix(".cbin")}.get(which) or self.ap_file
 
     def shanks(self):
         return range(NSH) if self.kind == "NP24" else range(1)
 
-    def paths(self, s):
+    def paths(self, s, extra=None):
         if self.kind == "NP24":
-            f = self.raw / f"probe00{chr(97 + s)}"
+            f = self.raw / f"probe00{chr(97 + s)}{self.extra if extra is None else extra}"
             return {"dir": f, "ap": f / f"{STEM}.ap.bin", "apc": f / f"{STEM}.ap.cbin", "apm": f / f"{STEM}.ap.meta",
                     "lf": f / f"{STEM}.lf.bin", "lfc": f / f"{STEM}.lf.cbin", "lfm": f / f"{STEM}.lf.meta"}
         f = self.folder
         return {"dir": f, "ap": f / "none.x", "apc": f / "none.y", "apm": f / "none.z",
                 "lf": f / f"{STEM}.lf.bin", "lfc": f / f"{STEM}.lf.cbin", "lfm": f / f"{STEM}.lf.meta"}
+
+    def apply_found(self, found):
+        """what the history finds in the shank folders (after reset): files the conversion did not write (`dirs`), or output
+        of a conversion of the other recording under the very names this conversion uses - uncompressed (`bins`), compressed
+        (`cbins`), both with damaged metadata (`mixed`) -, or output of a conversion with another `extra` (`otherextra`: folders
+        this conversion never names). All written directly, not by the code under test."""
+        if not found or found == "none" or self.kind not in ("NP24", "NP21"):
+            return
+        nap = self.fd.shape[1] - 1
+        for s in self.shanks():
+            p = self.paths(s, extra="_old" if found == "otherextra" else None)
+            if self.kind == "NP24":
+                p["dir"].mkdir(parents=True, exist_ok=True)
+                chns = np.r_[np.flatnonzero(self.shank_of == s), nap]
+            else:
+                chns = np.arange(nap + 1)
+            if found == "dirs":
+                if self.kind == "NP24":
+                    (p["dir"] / "notes.txt").write_text("channel notes\n")
+                    self.fd[:50, chns].tofile(p["dir"] / "_spikeglx_ephysData_g1_t0.imec0.ap.bin")
+                continue
+            meta = "\n".join(f"nSavedChans={len(chns)}" if ln.startswith("nSavedChans=") else ln for ln in self.fmeta_text.splitlines()) + "\n"
+            if found == "mixed":
+                meta = meta[: len(meta) // 3]
+            lfmeta = meta.replace("imSampRate=30000", "imSampRate=2500")
+            todo = [("lf", "lfm", self.fd[::n2.RATIO, chns], lfmeta, 2500)]
+            if self.kind == "NP24":
+                todo.append(("ap", "apm", self.fd[:, chns], meta, 30000))
+            for key, mkey, data, mtxt, fs in todo:
+                np.ascontiguousarray(data).tofile(p[key])
+                p[mkey].write_text(mtxt)
+                if found in ("cbins", "mixed"):
+                    self._mtscomp(p[key], nc=len(chns), fs=fs)
+                if found == "cbins":
+                    p[key].unlink()
 
     def _load(self, p, cbin):
         """int16 content of a .bin or .cbin (None if unreadable)"""
@@ -104,10 +205,11 @@ class World:
 
     def project(self):
         fs = {}
-        fs["orig"] = "A" if not self.binf.exists() else "C" if self.binf.read_bytes() == self.orig_bytes else "P"
+        mok = self._meta_ok()     # the original = its samples and its metadata file (observed: binary and metadata after every step)
+        fs["orig"] = "A" if not self.binf.exists() else "C" if mok and self.binf.read_bytes() == self.orig_bytes else "P"
         oc = self.binf.with_suffix(".cbin")
         a = self._load(oc, True) if oc.exists() else None
-        fs["origc"] = "A" if not oc.exists() else "C" if a is not None and a.tobytes() == self.orig_bytes else "P"
+        fs["origc"] = "A" if not oc.exists() else "C" if mok and a is not None and a.tobytes() == self.orig_bytes else "P"
         nap = self.d.shape[1] - 1
         for s in range(NSH):
             if s not in self.shanks():
@@ -158,7 +260,7 @@ class World:
 @contextlib.contextmanager
 def instrumented(world, conv, steps, fail_at):
     import spikeglx
-    state = {"n": 0, "closes": 0, "in_check": False, "verified": False}
+    state = {"n": 0, "closes": 0, "in_check": False, "verified": False, "in_check_raised": False}
     conv._verif_state = state
 
     def point(label):
@@ -204,6 +306,9 @@ def instrumented(world, conv, steps, fail_at):
             r = orig_check(*a, **k)
             state["verified"] = True       # the comparison of this run's output with the original ran to its end
             return r
+        except AssertionError:
+            state["in_check_raised"] = True
+            raise
         finally:
             state["in_check"] = False
     conv.check_NP24 = w_check
@@ -302,20 +407,45 @@ def instrumented(world, conv, steps, fail_at):
                 pass
 
 
-NOOPTS = {"ow": False, "chk": False, "cmp": False, "del": False, "part": False}
+NOOPTS = {"ow": False, "chk": False, "cmp": False, "del": False, "part": False, "cb": False, "sub": False}
 
 
-def one_process(world, o, fail_at, steps, conv=None):
-    """one run by a fresh converter (or, with `conv`, by the same object again); appends records; returns (status string,
-    converter), status None if fail_at is beyond the last step of this run"""
+def construct(world, o):
+    """NP2Converter(<the file this run hands over>, options) ; init_params(...)"""
     import neuropixel
-    reuse = conv is not None
+    f = world.hand(o.get("hand"))
+    if o["chk"] != o["cmp"]:
+        f = str(f)          # the file name as a string (half of the option vectors), else as a Path
+    conv = neuropixel.NP2Converter(f, post_check=o["chk"], compress=o["cmp"], delete_original=o["del"])
+    init_params(world, conv, o)
+    return conv
+
+
+def init_params(world, conv, o):
+    kw = {"nwindow": W, "nsamples": PART if o.get("part") else None}
+    if world.extra:
+        kw["extra"] = world.extra
+    if o.get("sub"):
+        kw["nshank"] = [0]
+    conv.init_params(**kw)
+
+
+def one_process(world, o, fail_at, steps, conv=None, mode=None):
+    """one run by a fresh converter or, with `conv`: mode True = by the same object again, "reinit" = by the same object after
+    another init_params (the run's `part` / `sub`; check_completed starts anew: a fresh run for the model), "early" = by an
+    object constructed earlier in the history. Appends records; returns (status string, converter), status None if fail_at is
+    beyond the last step of this run"""
+    reuse = conv is not None and mode not in ("early", "reinit")
+    if conv is None:
+        conv = construct(world, o)
+    elif mode == "reinit":
+        init_params(world, conv, o)
+    o = dict(o, cb=Path(conv.ap_file).suffix == ".cbin", sub=bool(o.get("sub")))
+    if mode == "reinit":      # the options given to the constructor belong to the object
+        o.update(chk=bool(conv.post_check), cmp=bool(conv.compress), **{"del": bool(conv.delete_original)})
     steps.append({"pt": "begin", "fs": world.project(), "cd": bool(conv.check_completed) if reuse else False, "opts": dict(o),
                   "status": "none", "reuse": reuse})
     n0 = len(steps)
-    if not reuse:
-        conv = neuropixel.NP2Converter(world.ap_file, post_check=o["chk"], compress=o["cmp"], delete_original=o["del"])
-        conv.init_params(nwindow=W, nsamples=PART if o.get("part") else None)
     status = None
     fired = False
     with instrumented(world, conv, steps, fail_at):
@@ -326,9 +456,14 @@ def one_process(world, o, fail_at, steps, conv=None):
             status = "crashed"
             fired = True
         except Exception as e:  # noqa - nobody injected this
-            status = "raised"
-            steps.append({"pt": "raise", "fs": world.project(), "cd": bool(conv.check_completed), "vr": vr(conv),
-                          "exc": f"{type(e).__name__}: {e}"[:160]})
+            if isinstance(e, AssertionError) and conv._verif_state.get("in_check_raised"):
+                # the verification pass found a difference and stopped the run (before anything is compressed or deleted):
+                # the model's "refused"; whether it had to is a clause of Outcome
+                status = "refused"
+            else:
+                status = "raised"
+                steps.append({"pt": "raise", "fs": world.project(), "cd": bool(conv.check_completed), "vr": vr(conv),
+                              "exc": f"{type(e).__name__}: {e}"[:160]})
         finally:
             close_files(conv)
     if fail_at is not None and not fired:
@@ -384,40 +519,67 @@ def close_all(conv):
         pass
 
 
-def history(world, runs):
-    """runs: list of (opts, fail_at). returns trace record or None if some fail_at does not exist"""
+def uneven(world):
+    """NP2.4: some shank folders exist and others do not (left by a one-shank run)"""
+    if world.kind != "NP24":
+        return False
+    ex = [world.paths(s)["dir"].exists() for s in world.shanks()]
+    return any(ex) and not all(ex)
+
+
+def history(world, runs, setup=None):
+    """runs: list of (opts, fail_at[, mode]); mode True = the object of the previous run again, "reinit" = that object after another
+    init_params, "early" = an object constructed before the first run of the history. setup: {"found": ...} = leftovers the history
+    finds. Returns the trace record, or None if some fail_at does not exist"""
     world.reset()
+    world.apply_found((setup or {}).get("found"))
     steps = []
     conv = None
+    early = {}
     try:
-        for run in runs:
+        for i, run in enumerate(runs):
+            if len(run) > 2 and run[2] == "early":
+                early[i] = construct(world, run[0])
+        for i, run in enumerate(runs):
             o, fa = run[0], run[1]
-            reuse = len(run) > 2 and run[2]
-            if not world.ap_file.exists():
-                break                    # the original is gone: no further converter can be constructed / the object is dead
-            if reuse and conv is None:
+            mode = run[2] if len(run) > 2 and run[2] else None
+            same = mode in (True, "reinit")
+            if same and conv is None:
                 break
-            if reuse and sr_closed(conv):
+            cur = conv if same else early.get(i)
+            f = Path(cur.ap_file) if cur is not None else world.hand(o.get("hand"))
+            if not world._complete(f, f.suffix == ".cbin"):
+                break                    # the file to hand over (or the one the object holds) is gone: no further run by it
+            if same and sr_closed(conv):
                 # the interrupted run had already closed its reader (compress_NP21 / delete_NP24 close it before unlinking):
                 # calling process() again on this object would read a closed memory map, which crashes the interpreter.
                 # Outside the listed properties (a retry by a fresh object works): recorded as an observation, not executed.
                 OBSERVED.add(f"{world.kind}: process() on the same object after an interruption that left its reader closed "
-                             f"(first run {', '.join(k for k in OPT_KEYS if runs[0][0][k])} interrupted at step {runs[0][1]}) would read a closed memmap")
+                             f"(first run {', '.join(k for k in OPT_KEYS if runs[0][0].get(k))} interrupted at step {runs[0][1]}) would read a closed memmap")
                 break
-            if not reuse and conv is not None:
+            if not o["ow"] and not o.get("sub") and uneven(world):
+                # outside the property (DESIGN.md 9.6; NP2Convert!FoldersUneven): only some of the shank folders exist (an earlier
+                # run was restricted to one shank) - a full run without overwrite declines but first creates the missing folders
+                OBSERVED.add("NP24: process() without overwrite when only some shank folders exist (after init_params(nshank=[0])) "
+                             "returns 0 but creates the missing folders with empty files: not executed")
+                break
+            if not same and conv is not None:
                 close_all(conv)
-            st, conv = one_process(world, o, fa, steps, conv=conv if reuse else None)
+            st, conv = one_process(world, o, fa, steps, conv=cur, mode=mode)
+            early.pop(i, None)
             if st is None:
                 return None
     finally:
-        if conv is not None:
-            close_all(conv)
+        for c in [conv] + list(early.values()):
+            if c is not None:
+                close_all(c)
     for s in steps:
         s.setdefault("opts", NOOPTS)
         s.setdefault("status", "none")
         s.setdefault("reuse", False)
         s.setdefault("vr", False)
-    return {"kind": world.kind, "form": world.form, "runs": [list(r) for r in runs], "steps": steps}
+    return {"kind": world.kind, "form": world.form, "extra": world.extra, "setup": dict(setup or {}), "runs": [list(r) for r in runs],
+            "steps": steps}
 
 
 def nstates(t):
@@ -426,7 +588,7 @@ def nstates(t):
 
 def all_opts():
     """the 16 vectors of (overwrite, post_check, compress, delete_original) for whole-recording conversions"""
-    return [dict(zip(OPT_KEYS, v + (False,))) for v in itertools.product([False, True], repeat=4)]
+    return [dict(NOOPTS, **dict(zip(OPT_KEYS[:4], v))) for v in itertools.product([False, True], repeat=4)]
 
 
 def part_opts():
@@ -484,6 +646,90 @@ def plan(ctx):
             for f in rnd.sample(firsts, 10):
                 for o2 in rnd.sample(opts, 4):
                     out.append((kind, form, [f, (o2, rnd.randint(0, 12)), (dict(opts[15], **{"del": False}), None)]))
+    return out + plan_found(ctx)
+
+
+def plan_found(ctx):
+    """histories that do not start from a clean slate / whose runs are not by a fresh, fully parameterised object. Items carry a
+    4th element: {"found": ..., "extra": ...}. (Own random stream: the histories of plan() stay what they were.)"""
+    rnd = random.Random(ctx.seed * 7919 + 4)
+    q = ctx.quick
+    opts = all_opts()
+    keyv = [o for o in opts if o["chk"] and o["del"]]       # the vectors under which the original can disappear
+    ow = lambda o, v=True: dict(o, ow=v)                      # noqa: E731
+    anyfa = lambda: rnd.choice([None, rnd.randrange(0, 18)])  # noqa: E731
+    out = []
+    for kind in ("NP24", "NP21"):
+        # (a) the original in two forms / next to a stale file of the other form; which one is handed over
+        for form in ("both", "binS", "cbinS"):
+            for hand in (("bin", "cbin") if form == "both" else (None,)):
+                h = {"hand": hand} if hand else {}
+                for o in (rnd.sample(keyv, 2) + rnd.sample(opts, 1) if q else keyv + rnd.sample(opts, 6)):
+                    o = dict(o, **h)
+                    out.append((kind, form, [(o, "ALL" if not q and o in keyv else None)], {}))
+                    o2 = dict(rnd.choice(opts), **rnd.choice([{}, {}, {"hand": "bin"}, {"hand": "cbin"}]))
+                    out.append((kind, form, [(o, anyfa()), (o2, None)], {}))
+                    if not q:
+                        out.append((kind, form, [(o, anyfa()), (ow(o), None, True)], {}))
+                        out.append((kind, form, [(o, anyfa()), (ow(o2), anyfa()), (ow(rnd.choice(keyv)), None)], {}))
+        # (b) shank folders that already hold something: other files, output of another recording (longer, other samples) under
+        # the names this conversion writes, output of a conversion with another `extra`
+        for form in (("bin", "cbin") if not q else (rnd.choice(("bin", "cbin")),)):
+            for found in (("dirs", "bins", "cbins", "mixed", "otherextra") if kind == "NP24" else ("bins", "cbins", "mixed")):
+                su = {"found": found}
+                noow = [ow(o, False) for o in (rnd.sample(keyv, 1) if q else rnd.sample(keyv, 2) + rnd.sample(opts, 3))]
+                forced = [ow(o) for o in (rnd.sample(keyv, 1) + rnd.sample(opts, 1) if q else keyv[::2] + rnd.sample(opts, 3))]
+                for o in noow:
+                    out.append((kind, form, [(o, None)], su))
+                    out.append((kind, form, [(o, None), (ow(o), None, True)], su))          # declines, then the same object is forced
+                    if not q:
+                        out.append((kind, form, [(o, None), (ow(rnd.choice(opts)), anyfa()), (ow(rnd.choice(opts)), None)], su))
+                for o in forced:
+                    out.append((kind, form, [(o, "ALL" if not q and o["chk"] and o["del"] else None)], su))
+                    out.append((kind, form, [(o, rnd.randrange(0, 16)), (ow(rnd.choice(opts)), None)], su))
+                    if not q:
+                        out.append((kind, form, [(o, None), (rnd.choice(opts), None)], su))
+                        out.append((kind, form, [(dict(o, part=True), None), (ow(rnd.choice(opts)), None)], su))
+        # (c) a converter constructed before the earlier runs of the history (it holds the reader, the flags and the parameters of
+        # that moment), used afterwards; then forced
+        for _ in range(3 if q else 40):
+            form = rnd.choice(("bin", "cbin", "both"))
+            o1, o2 = rnd.choice(opts), rnd.choice(opts)
+            out.append((kind, form, [(o1, anyfa()), (o2, None, "early")], {}))
+            out.append((kind, form, [(o1, anyfa()), (ow(o2, False), None, "early"), (ow(o2), None, True)], {}))
+        # (d) the same object parameterised again (init_params) between two runs: whole recording <-> part of it
+        for _ in range(3 if q else 30):
+            form = rnd.choice(("bin", "cbin"))
+            o1 = dict(rnd.choice(keyv + opts), part=rnd.random() < 0.5)
+            out.append((kind, form, [(o1, anyfa()), (dict(o1, ow=rnd.random() < 0.8, part=not o1["part"]), None, "reinit")], {}))
+            if not q:
+                out.append((kind, form, [(o1, None), (dict(o1, ow=True, part=not o1["part"]), anyfa(), "reinit"),
+                                         (dict(o1, ow=True, part=not o1["part"]), None, True)], {}))
+    # (e) init_params(extra=...): the shank folders carry a suffix (the repository's tests always use one)
+    for form in (("bin",) if q else ("bin", "cbin")):
+        su = {"extra": "_test"}
+        for o in (rnd.sample(keyv, 2) + rnd.sample(opts, 1) if q else keyv + rnd.sample(opts, 6)):
+            out.append(("NP24", form, [(o, "ALL" if not q and o in keyv else None)], su))
+            out.append(("NP24", form, [(o, anyfa()), (rnd.choice(opts), None)], su))
+            out.append(("NP24", form, [(o, anyfa()), (ow(o), None, True)], su))
+        for found in ("bins", "cbins", "otherextra", "dirs"):
+            for o in rnd.sample(opts, 1 if q else 4):
+                out.append(("NP24", form, [(ow(o, False), None), (ow(o), None, True)], dict(su, found=found)))
+                out.append(("NP24", form, [(ow(rnd.choice(keyv)), anyfa()), (ow(o), None)], dict(su, found=found)))
+    # (f) init_params(nshank=[0]): only the first shank is split off; with post_check the verification refuses and the
+    # original stays, whatever delete_original says
+    sub = lambda o: dict(o, sub=True)    # noqa: E731
+    for form in (("bin",) if q else ("bin", "cbin")):
+        for o in (rnd.sample(keyv, 2) + rnd.sample(opts, 2) if q else opts):
+            out.append(("NP24", form, [(sub(o), "ALL" if not q and (o in keyv or form == "bin") else None)], {}))
+        for _ in range(2 if q else 16):
+            o, o2 = rnd.choice(keyv + opts), rnd.choice(opts)
+            out.append(("NP24", form, [(sub(o), anyfa()), (ow(o2), None)], {}))                      # one shank, then everything, forced
+            out.append(("NP24", form, [(o2, anyfa()), (sub(ow(o)), None)], {}))                      # everything, then one shank, forced
+            out.append(("NP24", form, [(sub(o), None), (sub(ow(o2, False)), None), (sub(ow(o2)), None, True)], {}))
+            if not q:
+                out.append(("NP24", form, [(sub(o), anyfa()), (sub(ow(o)), None, True)], {}))
+                out.append(("NP24", form, [(sub(o), None), (ow(o2), None, "early")], {}))
     return out
 
 
@@ -491,36 +737,39 @@ def execute(ctx, items):
     traces = []
     worlds = {}
     rng = np.random.default_rng(ctx.seed)
-    for kind, form, runs in items:
-        key = (kind, form)
+    for item in items:
+        kind, form, runs = item[:3]
+        setup = dict(item[3]) if len(item) > 3 and item[3] else {}
+        extra = setup.get("extra", "")
+        key = (kind, form, extra)
         if key not in worlds:
-            worlds[key] = World(Path(ctx.scratch) / f"c04_{kind}_{form}", kind, form, rng)
+            worlds[key] = World(Path(ctx.scratch) / f"c04_{kind}_{form}{extra}", kind, form, rng, extra=extra)
+            worlds[key].check_meta = True
         w = worlds[key]
         if any(r[1] == "ALL" for r in runs):
             base = [(r[0], None if r[1] == "ALL" else r[1]) + tuple(r[2:]) for r in runs]
-            t = history(w, base)
+            t = history(w, base, setup)
             if t:
                 traces.append(t)
             j = 0
             while j < 60:
-                t = history(w, [(r[0], j if r[1] == "ALL" else r[1]) + tuple(r[2:]) for r in runs])
+                t = history(w, [(r[0], j if r[1] == "ALL" else r[1]) + tuple(r[2:]) for r in runs], setup)
                 if t is None:
                     break
                 traces.append(t)
                 j += 1
         else:
-            t = history(w, runs)
+            t = history(w, runs, setup)
             if t is not None:
                 traces.append(t)
     for w in worlds.values():
-        n2.rm(w.root)
-        n2.rm(w.pristine)
+        w.remove()
     return traces
 
 
 def strip(t):
-    return {"kind": t["kind"], "steps": [{"pt": s["pt"], "fs": s["fs"], "cd": s["cd"], "opts": s["opts"], "status": s["status"],
-                                          "reuse": s["reuse"], "vr": s["vr"]} for s in t["steps"]]}
+    return {"kind": t["kind"], "steps": [{"pt": s["pt"], "fs": s["fs"], "cd": s["cd"], "opts": {k: bool(s["opts"].get(k)) for k in OPT_KEYS},
+                                          "status": s["status"], "reuse": s["reuse"], "vr": s["vr"]} for s in t["steps"]]}
 
 
 def validate(ctx, traces, label):
@@ -529,8 +778,11 @@ def validate(ctx, traces, label):
 
 
 def describe(t):
-    return f"{t['kind']}/{t['form']} history " + " ; ".join(
-        ("same-object." if len(r) > 2 and r[2] else "") + "process(" + ",".join(k for k in OPT_KEYS if r[0][k]) + ")"
+    who = {True: "same-object.", "reinit": "same-object.init_params().", "early": "constructed-at-start."}
+    su = t.get("setup") or {}
+    return f"{t['kind']}/{t['form']} " + "".join(f"{k}={v} " for k, v in sorted(su.items())) + "history " + " ; ".join(
+        (who.get(r[2], "") if len(r) > 2 else "") + "process(" + ",".join(k for k in OPT_KEYS if r[0].get(k))
+        + (f",hand={r[0]['hand']}" if r[0].get("hand") else "") + ")"
         + (f"@crash{r[1]}" if r[1] is not None else "") for r in t["runs"])
 
 
@@ -540,7 +792,7 @@ def report(ctx, traces, verdicts):
         if v["prop"]:
             exc = [s.get("exc") for s in t["steps"] if s.get("exc")]
             ctx.violation("convert:" + v["prop"], f"{describe(t)}: clause {v['prop']} false at record {v['pos']}"
-                          + (f" [{exc[0]}]" if exc else ""), {"kind": t["kind"], "form": t["form"], "runs": t["runs"]})
+                          + (f" [{exc[0]}]" if exc else ""), {"kind": t["kind"], "form": t["form"], "runs": t["runs"], "setup": t.get("setup") or {}})
         elif v["impl"] and UNBOUND:
             pass        # reported once, below: the private steps are not observed under their own labels
         elif v["impl"]:
@@ -583,7 +835,7 @@ def run(ctx):
     items = plan(ctx)
     traces = execute(ctx, items)
     for t in traces:
-        ctx.count(1, key=(t["kind"], t["form"], json.dumps(t["runs"], sort_keys=True)))
+        ctx.count(1, key=(t["kind"], t["form"], json.dumps(t["runs"], sort_keys=True), json.dumps(t.get("setup") or {}, sort_keys=True)))
     verdicts = validate(ctx, traces, "convert")
     report(ctx, traces, verdicts)
     report_unbound(ctx)
@@ -592,6 +844,11 @@ def run(ctx):
     ctx.cov["histories"] = len(traces)
     ctx.cov["interruptions_injected"] = sum(1 for t in traces for r in t["runs"] if r[1] is not None)
     ctx.cov["same_object_histories"] = sum(1 for t in traces if any(len(r) > 2 and r[2] for r in t["runs"]))
+    ctx.cov["histories_from_a_found_state"] = sum(1 for t in traces if (t.get("setup") or {}).get("found") or t["form"] not in ("bin", "cbin"))
+    ctx.cov["histories_with_extra"] = sum(1 for t in traces if t.get("extra"))
+    ctx.cov["histories_early_or_reparameterised_object"] = sum(1 for t in traces if any(len(r) > 2 and r[2] in ("early", "reinit") for r in t["runs"]))
+    ctx.cov["histories_one_shank_only"] = sum(1 for t in traces if any(r[0].get("sub") for r in t["runs"]))
+    ctx.cov["runs_executed"] = sum(1 for t in traces for s in t["steps"] if s["pt"] == "begin")
     ctx.cov["distinct_observed_directories"] = len({json.dumps(s["fs"], sort_keys=True) for t in traces for s in t["steps"]})
     for t in traces[:1] + [x for x in traces if len(x["runs"]) > 1][:2]:
         ctx.sample({"history": describe(t), "records": [[s["pt"], "".join(f"{k}:{v} " for k, v in s["fs"].items() if v != "A"), s["status"]]
@@ -601,14 +858,16 @@ def run(ctx):
                        "(single runs, enumerated until the run has no further step) + two/three-run histories (complete or "
                        "interrupted first run, any second run); distinct = distinct (kind, original form, run list)")
     ctx.assumptions += ["interruptions are exceptions raised at step boundaries of process() (no torn writes, no power loss)",
-                        "a fresh NP2Converter object per run, or the same object called again (BeginReuse)",
+                        "a fresh NP2Converter object per run, the same object called again (BeginReuse), the same object after another "
+                        "init_params, or an object constructed before the earlier runs; a run is started only while the file its object "
+                        "was given still exists; a full run without overwrite is not started when only some shank folders exist",
                         "projection: a file is complete iff its content equals the expected content (AP: bytes; .cbin: after "
                         "decompression; LF: shape and sync column)"]
 
 
 def selftest(ctx, traces, bad):
     good = [i for i, t in enumerate(traces) if i not in bad and t["kind"] == "NP24" and len(t["runs"]) == 1
-            and t["runs"][0][1] is None and t["runs"][0][0]["del"] and t["runs"][0][0]["chk"] and t["steps"][-1]["status"] == "1"][:4]
+            and t["form"] in ("bin", "cbin") and not t.get("setup") and not t["runs"][0][0].get("sub") and t["runs"][0][1] is None and t["runs"][0][0]["del"] and t["runs"][0][0]["chk"] and t["steps"][-1]["status"] == "1"][:4]
     if len(good) < 2:
         raise tlc.TLCError("selftest: no accepted delete_original traces")
     mut = []
@@ -641,5 +900,5 @@ def replay(ctx, sc):
     import logging
     logging.getLogger("ibllib").setLevel(logging.CRITICAL)
     runs = [tuple(r) for r in sc["runs"]]
-    traces = execute(ctx, [(sc["kind"], sc["form"], runs)])
+    traces = execute(ctx, [(sc["kind"], sc["form"], runs, sc.get("setup") or {})])
     report(ctx, traces, validate(ctx, traces, "replay"))
